@@ -1,3 +1,11 @@
 import XotModel.Props.C05
 open XotModel.Props
 #print axioms C05_later_survives_witness
+#print axioms normal_of_never_off
+#print axioms C05_remove
+#print axioms C05_detach
+#print axioms C05_append_exact
+#print axioms C05_append_resident
+#print axioms C05_append
+#print axioms C05_samepos_append
+#print axioms C05_survivor_append_witness
